@@ -2,6 +2,9 @@
 """Regenerates MANIFEST.json from the table below (kept in one place so it stays valid)."""
 import json
 CLAIMED = {
+ "C19": dict(tech="model checking: exhaustive deviation-bounded enumeration of send sequences of one PreparedMessage over 24 connection kinds (sequential) plus preemption-bounded scheduler exploration, in plain and -race builds, of concurrent sends colliding on one cached frame",
+             text="Every send is decoded by the independent decoder in the peer role: type and creation-time payload (also after the caller overwrote its slice), MASK per role, RSV1 iff negotiated and enabled at call time, equal to a WriteMessage twin; prepared close obeys the close rules; oversized prepared control messages refused at creation; concurrent sends race-free with intact frames.",
+             note="compression level is not observable on the wire beyond decodability", ref="§4 C19"),
  "C09": dict(tech="stateless model checking of the implementation under a controlled scheduler: preemption-bounded enumeration of all interleavings of a writer program, a closer (6 paths) and a WriteControl caller, scheduling points at every channel/mutex/transport operation (AST-instrumented overlay)",
              text="On the global event order of every explored schedule: nothing follows the first close frame on the wire; every message-level write that begins after the closing call returned fails (ErrCloseSent when valid); messages reported as sent are exactly the complete data messages on the wire.",
              note="preemption bound 2 (quick) / 3-4 (thorough); memory-model reorderings not modelled; calls overlapping the closing call may be linearised before it", ref="§4 C09"),
@@ -41,9 +44,9 @@ CLAIMED = {
  "C10": dict(tech="model checking / fault enumeration: every transport operation index of every explored write program is a choice point with answers ok/error/timeout/short/zero write; invalid requests x positions; deadline compared at every transport Write",
              text="After any single fault: wire prefix decodes to whole frames + <=1 partial, no later transport Write, every later message-level write fails; invalid requests write nothing and leave the stream intact (judged by the independent decoder); each Write runs under the expected deadline.",
              note="single fault per execution; lean content dimensions", ref="§4 C10"),
- "C20": dict(tech="model checking: same program x fault x invalid-request space with an instrumented poisoning BufferPool whose Get/Put log is stamped with the API call and transport op in progress",
+ "C20": dict(tech="model checking: program x fault x invalid-request space with an instrumented poisoning BufferPool (Get/Put log stamped with the API call and transport op in progress), plus preemption-bounded scheduler exploration (plain and -race) of 2-3 connections sharing one pool",
              text="Get/Put log must be (Get Put)* with the same buffer, Gets only in message-starting calls, no buffer held between messages (after Close, implicit close, error, invalid request), every frame write issued while the buffer is owned; poisoned returned buffers make use-after-release visible on the wire.",
-             note="sequential part; concurrent sharing is explored by the scheduler scenarios (see DESIGN.md)", ref="§4 C20"),
+             note="sharing: 2-3 connections with one pool under the scheduler in plain and -race builds (preemption-bounded)", ref="§4 C20"),
  "C01": dict(tech="model checking: deviation-bounded exhaustive exploration of write programs x read programs on a real Conn pair, oracle = list of messages given to the write API",
              text="Core product role x deflate x WriteBufferSize x size in S(B) x write program enumerated completely; every other dimension (type, pattern, level, toggles, pool, interleaved control writes, further messages, read buffer/program/size, chunking, abandon) explored exhaustively up to the deviation bound. All executions are of the real code.",
              note="sizes restricted to the boundary set S(B); sequences <= 2 (quick) / 3 (thorough); scripted in-memory transport", ref="§4 C01"),
